@@ -43,6 +43,8 @@ package reader
 // rfP) and of reading the rest of a bracketed sequence closed by end from token p (rlC, rlP):
 // running out of tokens inside a bracket is the EOF class of THAT bracket's closer; the error of a
 // nested form is passed on unchanged, so the innermost open bracket names the closer
+//@ spec abstract readStrE(str string, cursor *Position, ph *HashMap) error
+//@ spec abstract readStrV(str string, cursor *Position, ph *HashMap) MalType
 //@ spec abstract rfC(toks []Token, p int) int
 //@ spec abstract rfP(toks []Token, p int) int
 //@ spec rec rlC(toks []Token, p int, end string) int = ite(p >= len(toks), closerCls(end), ite(toks[p].Value == end, 0, ite(rfC(toks, p) != 0, rfC(toks, p), rlC(toks, rfP(toks, p), end))))
@@ -138,6 +140,7 @@ package reader
 //@ func tokenize(sourceCode, cursor) (r, e)
 //@   requires cursor != nil
 //@   panics never
+//@   ensures cls(e) == 0 || cls(e) == 5 @C16
 //@   ensures implies(e == nil, forall(j, 0, len(r), r[j].Cursor.BeginRow == r[j].Cursor.Row && r[j].Cursor.Module == cursor.Module)) @C17
 //@   loop 1 invariant forall(j, 0, len(result), result[j].Cursor.BeginRow == result[j].Cursor.Row) @C17
 //@   loop 1 invariant forall(j, 0, len(result), result[j].Cursor.Module == cursor.Module) @C17
@@ -148,3 +151,10 @@ package reader
 //@   at "cursor = NewCursorFile(matches[1])" assume len(matches) == 2
 //@   at "if tokenReader.position != len(tokenReader.tokens) {" assert cls(err) == 0 && rfC(tokenReader.tokens, 0) == 0 && tokenReader.position == rfP(tokenReader.tokens, 0) @C16
 //@   at "return nil, err"#2 assert cls(err) == rfC(tokenReader.tokens, 0) && cls(err) != 0 @C16
+// whatever path returns: an EOF-class error is the class of the grammar on the whole token
+// sequence, and a value is returned only when one form covers all the tokens
+//@   ensures implies(cls(e) >= 1 && cls(e) <= 4, cls(e) == rfC(tokens, 0)) @C16,local
+//@   ensures implies(e == nil, rfC(tokens, 0) == 0 && rfP(tokens, 0) == len(tokens)) @C16,local
+// Read_str is a function of the text, the cursor and the placeholder table (the value it builds is
+// fresh: "the same" is up to allocation); used to say that READ is Read_str and nothing else
+//@   ensures e == readStrE(str, cursor, placeholderValues) && r == readStrV(str, cursor, placeholderValues) @assume
